@@ -94,6 +94,11 @@ def generate(tier, seed):
     for l, r in (('p(X) :- q(X), not r(X + 1).', 'p(X) :- q(X), X != a.'), ('p(1..3, a).', '{p(X, Y)} :- q(X / 2, Y).'),
                  ('p :- q, not s. s :- 1 < 2.', ':- p, #sup > X, q(X).')):
         items.append({'family': 'problem-formulas', 'strong': (l, r)})
+    from .c02 import TASKS as EXT_TASKS
+    for t in EXT_TASKS:
+        if t[0] in ('placeholder-integer', 'placeholder-arith', 'placeholder-general', 'placeholder-symbol-vs-symbol', 'spec-placeholder-private',
+                    'spec-exists-equivalence', 'spec-nested-equivalences', 'interval-head-choice', 'division', 'symbol-vs-zero-ary-predicate'):
+            items.append({'family': 'problem-formulas', 'external': t})
     return items
 
 
@@ -223,6 +228,7 @@ def check_formula(b, item, f, text_, fam):
 
     def build(kw):
         ctx = Ctx(**kw)
+        ctx.one_point = False       # keep the source side structurally parallel to the re-read text
         lhs = ctx.cl(f)
         interp = tff.Interp(ctx, m)
         rhs = interp.formula(ast if wrong is None else ('not', ast))
@@ -274,6 +280,22 @@ def check_item(item):
         seen = set()
         for simp in ('true', 'false'):
             resp = b.call('strong_task', Q(l), Q(r_), Q('tau-star'), Q('universal'), Q('independent'), Q(simp), Q('false'))
+            for p in parse_problems(resp[0]):
+                for pf in p['formulas']:
+                    if pf['formula'] in seen:
+                        continue
+                    seen.add(pf['formula'])
+                    out += check_formula(b, item, pf['formula'], pf['tptp'], 'problem-formulas')
+        return out
+    if 'external' in item:
+        from .c02 import run_task
+        from .tasks import parse_problems
+        out = []
+        seen = set()
+        for simp in (True, False):
+            req, resp = run_task(b, item['external'], 'universal', 'independent', simp, True)
+            if resp[0][0] == 'refused':
+                continue
             for p in parse_problems(resp[0]):
                 for pf in p['formulas']:
                     if pf['formula'] in seen:
